@@ -39,7 +39,7 @@ ITEMS = [0, 1, 2]
 def lanes(tier):
     if tier == "quick":
         return [("plain", "plain", 4 * 9 + 60 + 20 + 40), ("san", "san", 4 * 9 + 20 + 20 + 10)]
-    return [("plain", "plain", 4 * 9 + 1200 + 20 + 400 + 10), ("san", "san", 4 * 9 + 300 + 20 + 100 + 10)]
+    return [("plain", "plain", 4 * 9 + 1200 + 20 + 400 + 10), ("san", "san", 4 * 9 + 300 + 20 + 100 + 10), ("vg-san", "vg", list(range(0, 4 * 9 + 300 + 20 + 100 + 10, 29)))]
 
 
 def _tup(s):
